@@ -514,6 +514,9 @@ class TypeshedFinder:
                 if decorator_value in PROPERTY_LIKE:
                     is_property = True
             if is_property:
+                if on_class:
+                    # C.prop is the descriptor itself, not the value it computes
+                    return TypedValue(property)
                 if node.returns:
                     return self._parse_type(node.returns, mod)
                 else:
